@@ -418,7 +418,7 @@ func c12RunJSON(c *sim.Ctx) {
 					rec.ExpiresAt = &t
 				case 2:
 					rec.Metadata = map[string]string{"k": "v" + s, "z": "1"}
-					rec.DUID, rec.IAID = "00:01:" + s, uint32(op.Arg(2))+1
+					rec.DUID, rec.IAID = "00:01:"+s, uint32(op.Arg(2))+1
 				case 3:
 					rec.PoolType = allocator.PoolTypeIPv6Prefix
 				}
